@@ -123,6 +123,9 @@ BODIES = {
     "inner-loop-then-X": [N(2), ["for", "i", []], ["brk"]], "inner-loop-then-x": [N(2), ["for", "i", [N(1), E("_")]], ["rec"]],
     "inner-loop-then-if-X": [N(2), ["for", "i", [N(1), E("_")]], E("n"), N(2), E("="), ["if", [[["brk"]]]]],
     "inner-while-then-X": [N(1), ["while", [E(":")], [E("‹")]], E("_"), ["brk"]],
+    # a lazy result made by a modifier inside the call escapes and is only partly read afterwards (see wrapper lambda-call-then-peek)
+    "vectorised-lazy-result": [E("ɾ"), ["mod", "v", [E("›")]]], "scan-lazy-result": [E("ɾ"), ["mod", "ɖ", [E("+")]]],
+    "map-lazy-result": [E("ɾ"), ["map", [E("d")]]],
     "X-in-while-condition": [N(0), ["while", [["brk"]], [N(1)]]], "x-guarded-in-while-condition": [N(0), ["while", [E(":"), N(3), E("="), ["if", [[["brk"]]]], N(1)], [E("›")]]],
 }
 WRAPS = {
@@ -132,6 +135,8 @@ WRAPS = {
     "map": lambda b: [N(2), ["map", b], E("L")], "filter": lambda b: [N(2), ["flt", b], E("L")], "sort": lambda b: [N(2), ["srt", b], E("L")],
     "def-call": lambda b: [["def", "f", ["1"], b], N(5), ["call", "f"]], "list": lambda b: [["list", [b, [N(7)]]]],
     "mod-v": lambda b: [N(2), ["mod", "v", [["lam", None, b]]], E("L")], "mod-ß": lambda b: [N(1), ["mod", "ß", [["lam", None, b]]]],
+    "lambda-call-then-peek": lambda b: [N(4), ["lam", None, b], E("†"), E(":"), E("h"), E("_")],
+    "lambda-call-keep-in-variable-then-peek": lambda b: [N(4), ["lam", None, b], E("†"), ["set", "a"], ["get", "a"], E("h"), E("_")],
     "mod-ƒ": lambda b: [N(3), ["mod", "ƒ", [["lam", 2, b]]]], "none": lambda b: b,
 }
 
